@@ -697,15 +697,16 @@ class ArgGen:
 # ------------------------------------------------------------------ co-tenant activity for the other simulations
 
 
-def gen_cotenant(r, n=None):
+def gen_cotenant(r, n=None, prefer=None):
     """a few calls on other parts of the library, to be executed in the same process before/inside another check's simulation:
     what the rest of an application does with the library while the handlers / the tracker run"""
     _build_registry()
     g = ArgGen(r, harvest(core.repo_root()))
     names = sorted(ENTRIES)
+    pref = [x for x in names if prefer and any(p in x for p in prefer)]
     ops = []
     for _ in range(n if n is not None else r.choice([3, 8, 20])):
-        name = r.choice(names)
+        name = r.choice(pref) if pref and r.random() < 0.7 else r.choice(names)
         try:
             ops.append({"entry": name, "args": [g.gen(sp) for sp in ENTRIES[name]["specs"]]})
         except Exception:
